@@ -14,7 +14,7 @@ theorem pinv_setCache (cfg : Cfg) (s : St) (d d' : Doc) (h : pinv cfg s d = true
     (hl : legalStep cfg d .setCache = some d') :
     (stepR cfg s .setCache).2 = none ∧ pinv cfg (stepR cfg s .setCache).1 d' = true := by
   have hi := (setters_inv cfg s .setCache (Or.inr rfl) (pinv_inv h)).1
-  obtain ⟨hasCache, state, locked, tracker, calling, status, tRef, pRef, specT, userT, specP, userP, lT, lP, hsS, hsE, hT, hP, raw, ts, shares, filled, held, done⟩ := s
+  obtain ⟨hasCache, state, locked, tracker, calling, status, tRef, pRef, specT, userT, specP, userP, lT, lP, hsS, hsE, hT, hP, raw, ts, shares, filled, held, done, bfresh⟩ := s
   obtain ⟨cache, built, ddone, injT, injP, fresh⟩ := d
   obtain ⟨golang, custom, cT, cP, skip, disabled⟩ := cfg
   cases ddone with
